@@ -115,8 +115,8 @@ def run(rep, model, tier, seed, broken=()):
             prob = "CRLF variant differs beyond line endings / whitespace-only lines"
         elif r1["status"] != r3["status"]:
             prob = "CRLF variant changes acceptance"
-        elif (m1["status"], m1["text"]) != (r1["status"], r1["text"]) or (m2["status"], m2["text"]) != (r2["status"], r2["text"]):
-            prob = "model page differs from implementation page"
+        elif m1["status"] != m2["status"] or m1["text"] != m2["text"]:
+            prob = "model page differs between the two layouts (model bug)"
         if prob:
             nv += 1
             if nv <= 2:
